@@ -490,6 +490,9 @@ func run(c *mc.Ctx) {
 	}
 	// ordered pairs of different requests on the same file (cache / pooled reader interplay)
 	red := []string{"", "bytes=0-0", "bytes=1-", "bytes=-1", "bytes=2-3", "bytes=9-", "bytes=8192-", "bytes=-0", "bytes=4000-9000"}
+	if c.Thorough() {
+		red = append(red, "bytes=0-", "bytes=-5", "bytes=5-5", "bytes=4-2", "bytes=8191-8192", "bytes=-8193", "bytes=16499-", "bytes=99999999999999999999-", "bytes=0-99999999999999999999", "bytes=a-b", "bytes=0-1,3-4", "bits=0-1")
+	}
 	for _, opt := range []int{1, 3} {
 		for _, route := range []string{"static", "file"} {
 			if route == "file" && opt != 1 {
